@@ -12,6 +12,17 @@ from harness import gen
 
 THEOREMS = {
     'RsomeV.Props.C13': [
+        'RsomeV.C13.evtadapt_partition',
+        'RsomeV.C13.run_events',
+        'RsomeV.C13.evtadapt_rejects_redeclared',
+        'RsomeV.C13.combSet_refines',
+        'RsomeV.C13.rule_var_shares',
+        'RsomeV.C13.rule_var_disjoint',
+        'RsomeV.C13.mask_respected',
+        'RsomeV.C13.coefRank_injective',
+        'RsomeV.C13.affadapt_rejects_redeclared',
+        'RsomeV.C13.affadapt_redeclared_error',
+        'RsomeV.C13.affadapt_int_error',
     ],
 }
 RULE = ("random sequences of adapt() calls on dro decisions (1-6 scenarios, integer and string labels; valid subsets, "
